@@ -115,11 +115,15 @@ func (c *caseGen) step() {
 			p = Pick(r, cand)
 		}
 		na := 10 + r.Intn(6)
-		switch r.Intn(4) {
+		switch r.Intn(6) {
 		case 0: // only the port changes
 			na = 100 + c.addrOf[p.sess]%100
 		case 1: // only the IP changes
 			na = 200 + c.addrOf[p.sess]%100
+		case 2: // to an IPv6 address with the same port
+			na = 300 + c.addrOf[p.sess]%100
+		case 3: // to another IPv6 address with the same port (from 300+j: only the IP changes)
+			na = 400 + c.addrOf[p.sess]%100
 		}
 		c.op("dlv S %d %s none", na, p.ref)
 		// only an accepted packet moves the session; the generator does not need to know
